@@ -49,6 +49,7 @@ type Env struct {
 	pkg      *types.Package
 	backedge bool
 	bound    map[string]bool // names bound by quantifiers / let (not rebound inside old())
+	own      bool            // environment of the function under translation (not of a callee's contract)
 	recName  string   // name of the pure function being defined (for self calls)
 	recComps []string // its state parameters
 	depth    int
@@ -607,7 +608,7 @@ func (e *Env) call(n *ECall) (*SVal, error) {
 		}
 		// inside old(...) a parameter that the body reassigns denotes its value on entry
 		var reb map[string]*SVal
-		for _, p := range e.t.fn.Params {
+		for _, p := range e.ownParams() {
 			cur, ok := e.vars[p.Name()]
 			_, isLoc := e.locs[p.Name()]
 			pv := e.t.vals[p]
@@ -630,7 +631,7 @@ func (e *Env) call(n *ECall) (*SVal, error) {
 					nl[k] = v
 				}
 			}
-			for _, p := range e.t.fn.Params {
+			for _, p := range e.ownParams() {
 				if _, isLoc := e.locs[p.Name()]; isLoc && !e.bound[p.Name()] {
 					delete(nl, p.Name())
 				}
@@ -1009,6 +1010,13 @@ func (t *Tr) defineSpecFunc(f *SpecFunc) (*specDef, error) {
 // ---------------------------------------------------------------------------
 // environments
 
+func (e *Env) ownParams() []*ssa.Parameter {
+	if !e.own {
+		return nil
+	}
+	return e.t.fn.Params
+}
+
 func addBound(m map[string]bool, n string) map[string]bool {
 	out := map[string]bool{n: true}
 	for k := range m {
@@ -1018,7 +1026,7 @@ func addBound(m map[string]bool, n string) map[string]bool {
 }
 
 func (t *Tr) baseEnv(st *State) *Env {
-	e := &Env{t: t, c: t.c, vars: map[string]*SVal{}, locs: map[string]*Loc{}, st: st, old: t.entrySt}
+	e := &Env{t: t, c: t.c, vars: map[string]*SVal{}, locs: map[string]*Loc{}, st: st, old: t.entrySt, own: true}
 	if t.fn.Pkg != nil {
 		e.pkg = t.fn.Pkg.Pkg
 	} else if t.fn.Parent() != nil {
